@@ -58,3 +58,7 @@ add("C17", "rapid-generated well-formed multi-file specs and single-fault varian
     "Generated-input search: thousands of specs per run, every fault kind required to occur; accepted/rejected verdict checked in both directions and the diagnostic must point into the faulty declaration (file and line span), 5% also through codegen.Generate.",
     "For duplicate names either declaration is an acceptable position; info and error lines share one format.",
     "DESIGN.md §3 C17")
+add("C12", "rapid-generated and mutated .lox texts through the in-process front end under recover; complete sweep of 30 Go-package configurations plus generated packages through the real generator and binary; native coverage-guided fuzzing (thorough)",
+    "Generated-input search: tens of thousands of structurally mutated specifications per run (corpus = every grammar, example and documentation snippet of the repository + generated specs + hostile constants), every package configuration of a finite list through codegen.Generate with the real go list, a third also through the lox executable; outcome must be output-or-diagnostic, never a panic, a hang or a silent failure.",
+    "Hang detection uses generous wall-clock guards and only reports after an independent second run; panics are identified by their first frame inside the repository.",
+    "DESIGN.md §3 C12")
